@@ -5,6 +5,7 @@ import XalanModel.C12.AxesProofs
 import XalanModel.C12.WalksProofs
 import XalanModel.Generated.C12_WalkShapes
 import XalanModel.Generated.C12_Flush
+import XalanModel.Generated.C12_NodeMap
 /-!
 # C12 — node-sets are duplicate-free sets in one consistent document order
 
@@ -168,6 +169,17 @@ working tree on every run (and fails if one of the event handlers is missing); t
 `build`/`rtf` streams of the check, which compare index order with the structural walk on the real trees. -/
 theorem buildersFlushBeforeCreate :
     ∀ h ∈ XalanModel.Generated.C12.builderHandlers, h.2.2.1 = true → h.2.2.2 = true := by decide
+
+/-- **One `XalanNode` per DOM node** (translator obligation; node identity is what every list theorem silently
+relies on: `NodeRef` equality stands for pointer equality).  In a Xerces document wrapped on demand a wrapper is
+created when navigation first reaches a DOM node and is found again through `m_nodeMap`; every
+`XercesDocumentWrapper::createWrapperNode` overload that creates a wrapper registers it there (the generic
+`DOMNodeType` overload only dispatches).  Table regenerated by `translate/c12_nodemap.py` on every run; the runtime
+counterpart is the `identity`/`nodesets` streams of the check (every node reached by several navigation routes, twice,
+must be one object, on all three representations, for documents with CDATA sections, entity references, comments, PIs
+and a document type). -/
+theorem wrapperNodesAreMapped :
+    ∀ o ∈ XalanModel.Generated.C12.createWrapperNodeOverloads, o.2.1 = false → o.2.2 = true := by decide
 
 /-! ## ordered insert -/
 
